@@ -15,6 +15,10 @@ from .report import Finding
 
 # (caller fullname, callee qualname, param) -> reason the option is deliberately not passed
 EXEMPT = {
+    ('photutils.aperture.stats.ApertureStats._aperture_masks_center', 'CircularMaskMixin.to_mask', 'subpixels'):
+        "method='center' masks: the subpixels option only applies to method='subpixel'",
+    ('photutils.utils.depths.ImageDepth.__call__', 'PixelAperture.do_photometry', 'mask'):
+        'aperture positions are drawn only from pixels whose dilated neighbourhood is unmasked, so no masked pixel is inside an aperture',
     ('photutils.centroids.gaussian.centroid_1dg', '_gaussian1d_moments', 'mask'):
         'the marginal sums are taken from a MaskedArray; the moments helper sees compressed 1-D data',
     ('photutils.isophote.ellipse.Ellipse.fit_image', 'Ellipse.fit_isophote', '*'):
@@ -53,6 +57,25 @@ def _default_nodes(func_node):
     return out
 
 
+_um_cache = {}
+
+
+def unique_method(repo, name):
+    """A method name that is defined by exactly one class hierarchy root in the package
+    (so `obj.name(...)` on an object of unknown type can only mean that method)."""
+    key = (id(repo), name)
+    if key not in _um_cache:
+        hits = []
+        for c in repo.classes.values():
+            if name in c.methods:
+                hits.append(c.methods[name][0])
+        # overrides of one base method count as one
+        sigs = {tuple(h.params) for h in hits}
+        _um_cache[key] = hits[0] if hits and len(sigs) == 1 and not name.startswith('__') \
+            and name not in ('copy', 'update', 'get', 'append', 'sort', 'items', 'values', 'keys', 'evaluate', 'fit', 'imshow', 'plot') else None
+    return _um_cache[key]
+
+
 def run_forward(repo, res, modules=None, rule='FWD'):
     n_sites = 0
     used = set()
@@ -67,6 +90,8 @@ def run_forward(repo, res, modules=None, rule='FWD'):
             if not isinstance(n, ast.Call) or id(n) in defaults:
                 continue
             g = repo.resolve_call(f, n)
+            if not isinstance(g, (ClassInfo, FunctionInfo)) and isinstance(n.func, ast.Attribute):
+                g = unique_method(repo, n.func.attr)
             if isinstance(g, ClassInfo):
                 g = g.lookup('__init__')
                 skip = 1
